@@ -162,15 +162,15 @@ def run(ctx: Ctx) -> None:
     # markers (R19.2) and the lexer re-bases on them; the re-basing arithmetic is C10's
     # R10.3, evaluated here under this property's id.
     from . import c10
-    from ..report import SubCtx
-    c10.run(SubCtx(ctx, {"R10.3": ("R19.4", "line markers kept by the filters are honoured: line_offset = physical lineno - N + 1, file name from the same match")}))  # type: ignore[arg-type]
+    from ..report import SubCtx, run_shared
+    run_shared(ctx, c10.run, {"R10.3": ("R19.4", "line markers kept by the filters are honoured: line_offset = physical lineno - N + 1, file name from the same match")})
 
     # ---------------------------------------------------------------- R19.5
     # "exactly the declarations written in the main file, macro-expanded": with what *this* file defines.  A preprocessor
     # object built once by the factory and reused per file carries the macros of the files seen before; whether the
     # returned closures capture anything but read-only configuration is C15's R15.6, evaluated here under this id.
     from . import c15
-    c15.run(SubCtx(ctx, {"R15.6": ("R19.5", "the preprocessor functions handed out by the factories keep nothing from one file to the next (captured names are read-only configuration)")}))  # type: ignore[arg-type]
+    run_shared(ctx, c15.run, {"R15.6": ("R19.5", "the preprocessor functions handed out by the factories keep nothing from one file to the next (captured names are read-only configuration)")})
 
 def mod_parent(mod, node):
     return mod.parent.get(node) or node
